@@ -93,7 +93,8 @@ WriteAt(file, pos, data) ==
                        ELSE IF i <= Len(file) THEN file[i] ELSE <<0, 0>>]
 
 Step(rec) == /\ ops < MaxOps /\ ops' = ops + 1 /\ hist' = Append(hist, rec)
-Obs == [last |-> flast', sm |-> fsm', mem |-> fmem', up |-> fup', tmp |-> ftmp']
+\* (namespaces as a client sees them: the user namespaces and those in use by a configuration, see StateMachine.tla)
+Obs == [last |-> flast', sm |-> [fsm' EXCEPT !.ns = SM!ListedNs(fsm')], mem |-> fmem', up |-> fup', tmp |-> ftmp']
 
 Init ==
     /\ llog = <<>> /\ lsnap = NoSnap /\ nextHid = 1
